@@ -149,6 +149,16 @@ theorem rr_window_injective (n : Int) (hn : 0 < n) (p : Int) (hp : 0 ≤ p ∧ p
   omega
 example : rrRun 2 (List.replicate 3 3) = [2, 0, 1] ∧ rrRun 3 (List.replicate 3 3) = [0, 1, 2] := by decide
 
+/-- the sequence of choices is periodic with period n (so every window of n consecutive calls, wherever it starts,
+    is a rotation of 0,…,n-1 and over k·n calls every partition is chosen exactly k times) -/
+theorem rr_periodic (n : Int) (hn : 0 < n) (k : Nat) (p : Int) (hp : 0 ≤ p ∧ p ≤ n) (i : Nat)
+    (hi : i + n.toNat < (rrRun p (List.replicate k n)).length) :
+    (rrRun p (List.replicate k n))[i + n.toNat] = (rrRun p (List.replicate k n))[i]'(by omega) := by
+  rw [rr_cycle n hn k p hp, rr_cycle n hn k p hp]
+  have : ((i + n.toNat : Nat) : Int) = i + n := by
+    have := Int.toNat_of_nonneg (Int.le_of_lt hn); omega
+  rw [this, ← Int.add_assoc, Int.add_emod_right]
+
 /-- manual partitioner: identity (stated on the routing function: a manual choice `c` within range is
     looked up unchanged) -/
 theorem manual_identity (parts : List Int) (c : Int) (h0 : 0 ≤ c) (h1 : c < parts.length) :
